@@ -143,12 +143,21 @@ def nontrivial_key(kind, payload):
 def _decode(qc_meas, cog, members):
     """Exact outcome distribution of the measurement circuit, decoded by mask parity."""
     from ..oracles import sem
+    from qiskit_addon_cutting.cutting_reconstruction import _process_outcome, _process_outcome_v2
     br = sem.simulate(qc_meas)
     vals = [0.0] * len(members)
+    v1 = np.zeros(len(members))
+    v2 = np.zeros(len(members))
     for k, rho in br.items():
         p = float(np.real(np.trace(rho)))
         for mi, mask in enumerate(cog.pauli_bitmasks):
             vals[mi] += p * (-1) ** bin(k & mask).count("1")
+        # the package's own decoders (no QPD bits set here): joint-integer form and two-register form
+        v1 += p * np.asarray(_process_outcome(cog, k), dtype=float)
+        v2 += p * np.asarray(_process_outcome_v2(cog, k, 0), dtype=float)
+    if not (np.allclose(v1, vals, atol=1e-12) and np.allclose(v2, vals, atol=1e-12)):
+        # report through the return value: the caller compares with the true expectations
+        return [float(x) for x in (v1 if not np.allclose(v1, vals, atol=1e-12) else v2)]
     return vals
 
 
